@@ -744,7 +744,19 @@ truediv = _arith('TRUEDIV', lambda x, y: x / y)
 pow_ = _arith('POW', lambda x, y: x ** y)
 lshift = _arith('LSHIFT', lambda x, y: x << y)
 rshift = _arith('RSHIFT', lambda x, y: x >> y)
-bitand = _arith('BITAND', lambda x, y: x & y)
+_bitand2 = _arith('BITAND', lambda x, y: x & y)
+
+
+def bitand(a, b):
+    """masks compose: c1 & (c2 & x) is (c1 & c2) & x  (masking a value that is already masked changes nothing)"""
+    for c, o in ((a, b), (b, a)):
+        if c == const(0xffffffff) and is_op(o, 'COMPRESS'):
+            return o            # an output word of the RIPEMD-160 compression function is a 32-bit word already (C05.RMD-STEPS)
+        if is_const(c) and type(c[1]) is int and is_op(o, 'BITAND') and len(o) == 4:
+            for c2, x in ((o[2], o[3]), (o[3], o[2])):
+                if is_const(c2) and type(c2[1]) is int:
+                    return _bitand2(const(c[1] & c2[1]), x)
+    return _bitand2(a, b)
 bitor = _arith('BITOR', lambda x, y: x | y)
 _bitxor2 = _arith('BITXOR', lambda x, y: x ^ y)
 
@@ -903,6 +915,14 @@ def eq(a, b):
         if is_op(x, 'GETITEM') and is_op(x[2], 'STR') and type_of(x[2][2]) == 'int' and is_const(y) \
                 and isinstance(y[1], str) and (len(y[1]) != 1 or y[1] not in '0123456789-'):
             return FALSE
+    # c == k * X on integers: X == c / k when k divides c, never otherwise (`len(b) * 8 == 128` is `len(b) == 16`)
+    for x, y in ((a, b), (b, a)):
+        if is_const(y) and type(y[1]) is int and is_op(x, 'MUL') and len(x) == 4:
+            for kk, xx in ((x[2], x[3]), (x[3], x[2])):
+                if is_const(kk) and type(kk[1]) is int and kk[1] not in (0, 1, -1) and _int_typed(xx):
+                    if y[1] % kk[1]:
+                        return FALSE
+                    return eq(const(y[1] // kk[1]), xx)
     # first byte of a SEC encoding: 02/03 (compressed) or 04 (uncompressed), never anything else
     for x, y in ((a, b), (b, a)):
         if is_op(x, 'GETITEM') and is_op(x[2], 'SEC') and x[3] == const(0) and is_const(y) and isinstance(y[1], int) \
